@@ -988,6 +988,10 @@ class Verifier(Calls):
                     for e in c.ensures:
                         g = self.eval_spec(s, e, s.frame, old=old, result=rv)
                         self.prove(s, g, 'post', fn, e)
+                    # closures used as callbacks: the callee updates its ghost state after the call returns
+                    for gname, gexpr in c.ghost_update:
+                        gv = self.eval_spec_value(s, gexpr, s.frame, old=old)
+                        s.frames[0].loc[gname] = gv
                     for inv in c.closure_invariant:
                         self.prove(s, self.eval_spec(s, inv, s.frame, old=old), 'closure-inv', fn, inv)
                     self.check_frame(s, old, c, fn)
